@@ -156,15 +156,18 @@ DIALECTS = ["method", "vba", "powershell", "jsregex"]
 JS_FLAGS = [b"g", b"", b"i", b"gi", b"m", b"gim"]
 
 
-def repl_expr(d, x, a, b, q, sp, flags=b"g"):
+SPELLINGS = [(b".replace(", b"Replace(", b"-replace"), (b".Replace(", b"replace(", b"-Replace"), (b".REPLACE(", b"REPLACE(", b"-REPLACE")]
+
+
+def repl_expr(d, x, a, b, q, sp, flags=b"g", spell=SPELLINGS[0]):
     s1, s2 = sp
     X, A, B = lit(x, q), lit(a, q), lit(b, q)
     if d == 0:
-        return X + b".replace(" + s1 + A + s1 + b"," + s2 + B + s1 + b")", replace.find_replace, "string", "replace"
+        return X + spell[0] + s1 + A + s1 + b"," + s2 + B + s1 + b")", replace.find_replace, "string", "replace"
     if d == 1:
-        return b"Replace(" + s1 + X + s1 + b"," + s2 + A + s1 + b"," + s2 + B + s1 + b")", replace.find_vba_replace, "vba.string", "vba.replace"
+        return spell[1] + s1 + X + s1 + b"," + s2 + A + s1 + b"," + s2 + B + s1 + b")", replace.find_vba_replace, "vba.string", "vba.replace"
     if d == 2:
-        return X + (s1 or b" ") + b"-replace" + s2 + A + s1 + b"," + s2 + B, replace.find_powershell_replace, "powershell.string", "replace"
+        return X + (s1 or b" ") + spell[2] + s2 + A + s1 + b"," + s2 + B, replace.find_powershell_replace, "powershell.string", "replace"
     return X + b".replace(/" + a + b"/" + flags + s1 + b"," + s2 + B + s1 + b")", replace.find_js_regex_replace, "javascript.string", "replace"
 
 
@@ -214,8 +217,9 @@ def run_unit(unit, rec):
                     continue
                 for b in (b"", b"b", b"a", a + a, b"_;"):
                     for q in (b'"', b"'"):
-                        for sp, flags in [(sp, fl) for sp in SPACING[:2] + [(b"", b" ")] for fl in (JS_FLAGS if d == 3 else [b"g"])]:
-                            expr, fn, typ, lab = repl_expr(d, x, a, b, q, sp, flags)
+                        for sp, flags, spell in [(sp, fl, spl) for sp in SPACING[:2] + [(b"", b" ")] for fl in (JS_FLAGS if d == 3 else [b"g"])
+                                                 for spl in (SPELLINGS if d != 3 else SPELLINGS[:1])]:
+                            expr, fn, typ, lab = repl_expr(d, x, a, b, q, sp, flags, spell)
                             for pre, suf in EMBED[:2]:
                                 data = pre + expr + suf
                                 val = x.replace(a, b)
@@ -223,7 +227,7 @@ def run_unit(unit, rec):
                                 if val != x:
                                     rec.mark("nontrivial", data, True)
                                 n += 1
-                                expect_one(rec, "C15.replace", fn, data, exp, {"kind": "repl", "dialect": d, "data": data, "x": x, "a": a, "b": b, "flags": flags, "start": len(pre),
+                                expect_one(rec, "C15.replace", fn, data, exp, {"kind": "repl", "dialect": d, "data": data, "x": x, "a": a, "b": b, "flags": flags, "spell": SPELLINGS.index(spell), "start": len(pre),
                                                                               "end": len(pre) + len(expr)}, scan=False)
         rec.sample({"family": "replace-" + DIALECTS[d], "expressions": n, "last": data})
 
@@ -239,5 +243,5 @@ def replay(w, rec):
             if name == w["fn"]:
                 expect_one(rec, "C15.reverse", fn, data, (typ, w["content"][::-1], lab, w["start"], w["end"]), w, scan=True)
     elif k == "repl":
-        _, fn, typ, lab = repl_expr(w["dialect"], w["x"], w["a"], w["b"], b'"', SPACING[0], w.get("flags", b"g"))
+        _, fn, typ, lab = repl_expr(w["dialect"], w["x"], w["a"], w["b"], b'"', SPACING[0], w.get("flags", b"g"), SPELLINGS[w.get("spell", 0)])
         expect_one(rec, "C15.replace", fn, data, (typ, w["x"].replace(w["a"], w["b"]), lab, w["start"], w["end"]), w)
